@@ -209,7 +209,16 @@ Every acquisition of `self.cache.lock()` is one atomic step.  `BlsCache::aggrega
 lazy iterator and hands it to `aggregate_verify_gt`, which first checks the signature (invalid ⇒
 `false`, nothing is consumed) and then pulls the elements one by one; per pair the closure takes the
 lock to look the key up and — on a miss only — computes the pairing *outside* the lock and takes the
-lock a second time to `put` it. -/
+lock a second time to `put` it.
+
+Since the repair 601e785b the closure also looks at the KEY of every pair it is handed — before the
+cache lookup, hit or miss alike — and sets the local flag `invalid_key` when the key `is_inf()` or is
+not `is_valid()`; the pairing is looked up / computed / inserted exactly as before (so the identity
+pairing of an infinity key still enters the cache), and the function returns
+`aggregate_verify_gt(sig, iter) && !invalid_key`.  In the scalar model a public key IS its scalar, so
+a key outside the prime-order subgroup (`!is_valid()`) is not representable: the flag is set exactly
+when the pair taken from the list has `pk = 0` (`Pair.isInf`); off-subgroup keys are covered by the
+correspondence runs only. -/
 
 inductive Op where
   /-- `BlsCache::aggregate_verify(pairs, sig)` -/
@@ -230,8 +239,9 @@ inductive Out where
 
 inductive TState where
   /-- inside `aggregate_verify`: pairs not yet looked up, a computed pairing waiting for its `put`
-  lock, the GT elements the iterator has yielded so far -/
-  | av (sig : Sig) (todo : List Pair) (pending : Option (Bytes × GT)) (got : List GT)
+  lock, the GT elements the iterator has yielded so far, and the local flag `invalid_key` (some pair
+  already taken from the list had the infinity key) -/
+  | av (sig : Sig) (todo : List Pair) (pending : Option (Bytes × GT)) (got : List GT) (invalidKey : Bool)
   | upd (todo : List (Bytes × GT))
   | evict (ps : List Pair)
   | len
@@ -243,19 +253,22 @@ structure Thread where
   st : TState
   deriving Repr
 
-/-- state of `aggregate_verify` after a step: finished when nothing is left to look up or put -/
-def avNext (sig : Sig) (todo : List Pair) (pending : Option (Bytes × GT)) (got : List GT) : TState :=
+/-- state of `aggregate_verify` after a step: finished when nothing is left to look up or put; the
+verdict is `ret && !invalid_key` with `ret = aggregate_verify_gt(sig, yielded elements)` -/
+def avNext (sig : Sig) (todo : List Pair) (pending : Option (Bytes × GT)) (got : List GT)
+    (invalidKey : Bool) : TState :=
   match todo, pending with
-  | [], none => .done (.verdict (aggregateVerifyGt sig got))
-  | _, _ => .av sig todo pending got
+  | [], none => .done (.verdict (aggregateVerifyGt sig got && !invalidKey))
+  | _, _ => .av sig todo pending got invalidKey
 
 /-- a call up to its first lock acquisition -/
 def Thread.start (op : Op) : Thread :=
   { op := op,
     st := match op with
       | .av ps sig =>
-        -- invalid signature: `false` before the iterator is touched; empty list: `sig == default`
-        if !sig.isValid then .done (.verdict false) else avNext sig ps none []
+        -- invalid signature: `ret = false` before the iterator is touched (no pair is looked at,
+        -- `false && !invalid_key = false`); empty list: `sig == default`; `invalid_key` starts `false`
+        if !sig.isValid then .done (.verdict false) else avNext sig ps none [] false
       | .upd [] => .done .unit
       | .upd es => .upd es
       | .evict ps => .evict ps
@@ -265,13 +278,16 @@ def Thread.start (op : Op) : Thread :=
 acquisition -/
 def step (c : Cache) (t : Thread) : Cache × Thread :=
   match t.st with
-  | .av sig todo (some (k, v)) got =>          -- `self.cache.lock().put(hash, pairing)`
-    (c.put k v, { t with st := avNext sig todo none got })
-  | .av sig (p :: rest) none got =>            -- `self.cache.lock().items.get(&hash).cloned()`
+  | .av sig todo (some (k, v)) got inv =>      -- `self.cache.lock().put(hash, pairing)`
+    (c.put k v, { t with st := avNext sig todo none got inv })
+  | .av sig (p :: rest) none got inv =>        -- `self.cache.lock().items.get(&hash).cloned()`
+    -- the key check precedes the lookup and happens for every pair, hit or miss
+    -- (`if pk.is_inf() || !pk.is_valid() { invalid_key = true; }`)
     match c.get p.key with
-    | some v => (c, { t with st := avNext sig rest none (got ++ [v]) })
-    | none => (c, { t with st := avNext sig rest (some (p.key, p.pairing)) (got ++ [p.pairing]) })
-  | .av sig [] none got => (c, { t with st := avNext sig [] none got })
+    | some v => (c, { t with st := avNext sig rest none (got ++ [v]) (inv || p.isInf) })
+    | none => (c, { t with st := avNext sig rest (some (p.key, p.pairing)) (got ++ [p.pairing])
+                                          (inv || p.isInf) })
+  | .av sig [] none got inv => (c, { t with st := avNext sig [] none got inv })
   | .upd [] => (c, { t with st := .done .unit })
   | .upd ((aug, gt) :: rest) =>
     (c.update aug gt, { t with st := if rest.isEmpty then .done .unit else .upd rest })
@@ -299,7 +315,7 @@ def runSchedule (w : World) (sched : List Nat) : World := sched.foldl World.step
 /-- upper bound on the lock acquisitions a thread still needs -/
 def stepsLeft (t : Thread) : Nat :=
   match t.st with
-  | .av _ todo pending _ => 2 * todo.length + (if pending.isSome then 1 else 0) + 1
+  | .av _ todo pending _ _ => 2 * todo.length + (if pending.isSome then 1 else 0) + 1
   | .upd todo => todo.length + 1
   | .evict _ => 1
   | .len => 1
